@@ -27,6 +27,10 @@ def roundtrip_ok(s):
     try:
         d = s.to_dict()
         hasinf = any(a is not None and np.any(np.isinf(np.asarray(a, dtype=float))) for a in (s.x, s.resid, s.jacobian, [s.obj]))
+        if s.diagnostic_info is not None and not hasinf:
+            # the same for an infinite entry of the diagnostic table (a row recorded while an overflow-sized value sat in the interpolation set)
+            for c in s.diagnostic_info.columns:
+                hasinf = hasinf or any(isinstance(u, float) and math.isinf(u) for u in s.diagnostic_info[c].tolist())
         txt = json.dumps(d, allow_nan=hasinf)  # strict JSON when NaN replacement is on (infinite entries are outside the property's letter)
         d2 = json.loads(txt)
         s2 = dfols.solver.OptimResults.from_dict(d2)
